@@ -573,6 +573,7 @@ func execRes13(f []string) zv.Out {
 	nb, _ := strconv.Atoi(f[8])
 	expect := f[10]
 	var labels, secrets [][]byte
+	var ages []uint32
 	viol := ""
 	if f[9] != "-" {
 		for _, id := range strings.Split(f[9], ";") {
@@ -580,15 +581,40 @@ func execRes13(f []string) zv.Out {
 			l := zv.UnHex(p[0])
 			labels = append(labels, l)
 			secrets = append(secrets, unOptHex(p[2]))
+			if len(p) == 4 {
+				a, _ := strconv.ParseUint(p[3], 10, 32)
+				for len(ages) < len(labels)-1 {
+					ages = append(ages, 0)
+				}
+				ages = append(ages, uint32(a))
+			}
 			if p[1] != oracleFor(keys, l) {
 				viol = "harness: keystream oracle on the line does not belong to this (keys, ticket)"
 			}
 		}
 	}
 	c := newConn(connParams{keys: keys, disabled: disabled, now: now, vers: tls.VersionTLS13, auth: auth})
-	err, using, sel, did := tls.ZVC31Check13(c, uint16(suite), modes, labels, secrets, nb)
-	out := "none"
+	var err error
+	var using, did bool
+	var sel uint16
 	tags := []string{"res13:expect=" + expect, fmt.Sprintf("res13:ids=%d", len(labels))}
+	if ages == nil {
+		err, using, sel, did = tls.ZVC31Check13(c, uint16(suite), modes, labels, secrets, nb)
+		tags = append(tags, "res13:ages=absent")
+	} else {
+		err, using, sel, did = tls.ZVC31Check13A(c, uint16(suite), modes, labels, ages, secrets, nb)
+		for _, a := range ages {
+			switch {
+			case a == 0:
+				tags = append(tags, "res13:age=0")
+			case a <= 604800000:
+				tags = append(tags, "res13:age<=7d")
+			default:
+				tags = append(tags, "res13:age>7d")
+			}
+		}
+	}
+	out := "none"
 	switch {
 	case err != nil:
 		out = "err " + b01(did)
@@ -858,8 +884,17 @@ type scen13 struct {
 
 func (t *tgen) emitRes13(s scen13, expect string) {
 	var ss []string
+	// obfuscated_ticket_age of every identity (4th component; absent = 0, the three-component form is kept so that
+	// both hook entry points stay exercised): zero, tiny, 7 days in ms and its neighbours (a lifetime check on the
+	// client-reported age would flip there), far beyond, maximal, random.
+	withAges := t.r.Chance(60)
 	for _, id := range s.ids {
-		ss = append(ss, zv.Hex(id.ticket)+"/"+oracleFor(s.keys, id.ticket)+"/"+optHex(id.secret))
+		item := zv.Hex(id.ticket) + "/" + oracleFor(s.keys, id.ticket) + "/" + optHex(id.secret)
+		if withAges {
+			ages := []uint32{0, 1, 604800000, 604800001, 604799999, 0xffffffff, 0x80000000, uint32(t.r.U64()), uint32(t.r.Intn(700000000))}
+			item += fmt.Sprintf("/%d", ages[t.r.Intn(len(ages))])
+		}
+		ss = append(ss, item)
 	}
 	ids := "-"
 	if len(ss) > 0 {
